@@ -1,0 +1,12 @@
+//go:build !verif
+// +build !verif
+
+package vm
+
+type verifState struct{}
+
+func (vm *VM) verifBegin(program *Program)              {}
+func (vm *VM) verifStep(op byte)                        {}
+func (vm *VM) verifAllocReq(size int)                   {}
+func (vm *VM) verifAlloc(size int, created interface{}) {}
+func (vm *VM) verifEnd(err error)                       {}
